@@ -579,12 +579,8 @@ func runC10R4(c *Ctx, rule string) {
 		fn := fn
 		key := "expires-stale|" + fnKey(fn)
 		var pattern ssa.Value
-		for _, b := range fn.Blocks {
-			for _, in := range b.Instrs {
-				if call, ok := in.(*ssa.Call); ok && call.Call.StaticCallee() != nil && call.Call.StaticCallee().String() == "regexp.MustCompile" {
-					pattern = call.Call.Args[0]
-				}
-			}
+		if pc := findPatternCall(c, fn, 0); pc != nil {
+			pattern = pc.Call.Args[0]
 		}
 		if pattern == nil {
 			c.R.Bad(rule, key, c.P.Pos(fn.Pos()), "the stale-cookie sweep does not select cookies by the session-cookie name pattern", nil, nil)
